@@ -1,12 +1,12 @@
-CONSTANTS N = 3
- MaxHidden = 3
- Provides = TRUE
- Upper = TRUE
+CONSTANTS N = 4
+ MaxHidden = 2
+ Provides = FALSE
+ Upper = FALSE
  EmitMode = "all"
  Siblings = FALSE
- MinHidden = 0
+ MinHidden = 2
  Focus = "all"
- Shape = "any"
+ Shape = "chain"
  Flaws = {}
  SliceK = 1
  SliceI = 0
